@@ -19,59 +19,95 @@ from typing import Any, Dict, List, Optional, Tuple
 from ..core import Ctx, enc
 
 THEOREMS = [
+    # extract_docstring_linenum / cleandoc
     "Lineno.extractLinenum_shift", "Lineno.extractLinenum_eq", "Lineno.cleaned_line_origin", "Lineno.dropped_eq",
     "Lineno.docstring_lineno_correct_partial", "Lineno.docstring_lineno_correct_counterexample",
+    # string literals as written
+    "Lineno.phys_vs_value", "Lineno.valueOf_newlines", "Lineno.literal_line_divergence", "Lineno.literal_line_exact",
+    "Lineno.literal_line_continuation_counterexample",
+    # parser numbers -> lineno_offset
     "Lineno.offset_correct_epytext_error", "Lineno.offset_correct_epytext_field",
     "Lineno.offset_correct_epytext_xref", "Lineno.offset_correct_rst_field", "Lineno.offset_correct_rst_xref",
-    "Lineno.offset_rst_markup_error_plus_one",
+    "Lineno.offset_rst_markup_error_plus_one", "Lineno.constructOffset_error_eq", "Lineno.constructOffset_field_eq",
+    "Lineno.findSub_some", "Lineno.rst_xref_offset_raw",
+    "Lineno.consolidated_field_line_correct", "Lineno.reported_line_correct_consolidated_partial",
+    "Lineno.classifier_xref_line_correct_partial", "Lineno.classifier_xref_on_first_line_old",
+    "Lineno.classifier_xref_old_counterexample",
+    "Lineno.type_warning_one_low", "Lineno.type_warning_counterexample",
+    # reported line per construct class
     "Lineno.reported_line_correct_epytext_error_partial", "Lineno.reported_line_correct_field_partial",
     "Lineno.reported_line_correct_epytext_xref_partial", "Lineno.reported_line_correct_rst_xref_partial",
     "Lineno.reported_line_correct_rst_error_partial", "Lineno.reported_line_rst_error_plus_one",
     "Lineno.reported_line_correct_rst_error_counterexample", "Lineno.reported_line_correct_counterexample",
     "Lineno.shift", "Lineno.report_shift",
+    # which object / file
     "Lineno.report_invariant_under_move", "Lineno.report_by_current_module_wrong",
-    "Lineno.consolidated_field_line_correct", "Lineno.reported_line_correct_consolidated_partial",
-    "Lineno.classifier_xref_line_correct_partial", "Lineno.classifier_xref_on_first_line_old",
-    "Lineno.classifier_xref_old_counterexample",
     "Lineno.inherited_report_in_source", "Lineno.inherited_report_independent",
     "Lineno.inherited_field_line_correct_partial", "Lineno.report_on_inheriting_object_wrong",
+    "Lineno.attr_field_only_correct", "Lineno.attr_own_only_correct", "Lineno.attr_both_partial",
+    "Lineno.attr_both_counterexample",
+    # google / numpy
     "Lineno.converted_formats_in_range_partial", "Lineno.converted_formats_in_range_counterexample",
+    "Lineno.napoleon_param_divergence_google", "Lineno.napoleon_param_divergence_numpy",
+    "Lineno.napoleon_google_overflow_iff", "Lineno.converted_param_offset", "Lineno.google_param_line_correct_iff",
+    "Lineno.google_param_reported_vs_written",
+    # counting and exit status
     "Lineno.every_report_counted", "Lineno.printed_is_counted", "Lineno.reachable_parse_errors_counted",
     "Lineno.exit_status_raw", "Lineno.exit_status",
 ]
 PARTIAL = {
     "Lineno.docstring_lineno_correct_partial":
         "excludes literals where a whitespace-only line between the opening quotes and the first text line is "
-        "longer than the margin cleandoc removes (noOverIndent = false); witness in "
-        "docstring_lineno_correct_counterexample",
-    "Lineno.reported_line_correct_*_partial":
-        "same layout hypothesis; for reStructuredText markup errors the additional (false of docutils) hypothesis that "
-        "the stored line is 0-based — on the real convention the reported line is one too high for every input "
-        "(offset_rst_markup_error_plus_one, reported_line_correct_rst_error_counterexample)",
+        "longer than the margin cleandoc removes (noOverIndent = false); witness docstring_lineno_correct_counterexample "
+        "(open finding line:overindented-leading-blank)",
+    "Lineno.reported_line_correct_*_partial, inherited_field_line_correct_partial, reported_line_correct_consolidated_partial, "
+    "classifier_xref_line_correct_partial":
+        "only the layout hypothesis noOverIndent (same finding)",
+    "Lineno.reported_line_correct_rst_error_partial":
+        "additionally the false hypothesis that docutils counts lines from 0; with the real base every reST markup error is "
+        "one line low (reported_line_rst_error_plus_one; open finding line:rst-markup-error:+1)",
     "Lineno.converted_formats_in_range_partial":
-        "holds only when the line index in the *converted* reST text is smaller than the number of lines of the "
-        "cleaned google/numpy docstring; pydoctor has no clamp (converted_formats_in_range_counterexample)",
+        "offset < number of cleaned lines; false exactly when the converted text is longer than the written one - for a trailing "
+        "google section iff at least two entries are typed (napoleon_google_overflow_iff; open finding range:converted:past-end)",
+    "Lineno.attr_both_partial":
+        "an attribute documented by a class field and by its own docstring: right only if both docstrings start on the same line, "
+        "i.e. never (attr_both_counterexample; open finding line:attr-field-and-inline-docstring)",
+    "Lineno.type_warning_one_low":
+        "states the defect: --process-types warnings of a type field are one line low for every field "
+        "(open finding line:processtypes-type-warning:+1)",
+    "Lineno.literal_line_exact":
+        "no backslash-newline / implicit-concatenation break and no \\n escape before the position (the property's own exclusion); "
+        "literal_line_divergence gives the exact displacement otherwise",
+    "Lineno.napoleon_param_divergence_numpy": "every entry has at least one description line",
 }
-RULE = ("layout grid exhaustively (text on opening line / below with 0-2 leading blank lines) x indentation depth 0-2 x "
-        "raw or not x docformat (4) x owner kind (module, class, function, method, attribute), every cell at least once per "
-        "run, the rest (blank-line whitespace, extra content indentation, closing quotes, block shapes, 1-5 planted "
-        "problems, vertical offset 0-7) random; each module is run twice through the real driver.main (offset 0 and "
-        "offset k, with and without --warnings-as-errors). Non-trivial = the docstring does not simply start on the line "
-        "after its def with zero offset (layout or offset differs from the simplest), or more than one problem is planted.")
+RULE = ("corpus first (fixed generator: the input shape of every finding and of every seeded change); then the layout grid "
+        "exhaustively three times (text on the opening line / below with 0-2 leading blank lines x raw or not x docformat (4) x owner "
+        "kind (module, class, function, method, attribute) x depth 0-2), the rest random (blank-line whitespace, content indentation, "
+        "closing quotes, paragraphs / list items / fields / reST consolidated fields / google-numpy parameter sections, 0-5 planted "
+        "problems, vertical offset 0-7); every module runs twice through the real driver.main (offset 0 and k, with and without "
+        "--warnings-as-errors). Further driver streams: --process-types type warnings, inherited docstrings (other module, same module, "
+        "two levels), objects moved by __all__ re-exports (plain / renamed, __init__ / sibling), attributes documented by a class field "
+        "and/or their own docstring, literals with continuation lines and \\n escapes. In-process streams: str.isspace table (all code "
+        "points), extract_docstring on hostile literals, literal source forms through ast.parse, get_lineno on hand-built node chains, "
+        "napoleon section rewriting, the parsers' stored line numbers, Documentable.report / System.msg / main's tail over small values. "
+        "Non-trivial = layout or offset differs from the simplest (docstring directly under its def, offset 0) or more than one problem planted.")
 ASSUMPTIONS = [
-    "generated string literals contain no backslash-newline, no escape sequences (backslashes only inside raw strings) and "
-    "are a single token: physical line of value line r = AST lineno + r (checked against ast.parse for every module)",
-    "assumed parser contracts (Lineno.constructOffset): epytext Token.startline = 0-based line of the block in the cleaned "
-    "docstring; docutils system_message/field/paragraph `line` = 1-based line of the block; inline nodes carry no line. "
-    "Validated end to end by the `reports` stream, not proved",
-    "reStructuredText cross-reference warnings name the physical line of the reference itself (get_lineno adds the newlines "
-    "before it inside the paragraph); this equals the paragraph's first line when the reference is on it. The oracle accepts "
-    "the reference's own line for this class (more precise than the property's wording asks for); every other class must be on "
-    "the first line of its paragraph / item / field",
-    "google/numpy: only the span condition is checked (property wording); napoleon's conversion is outside the model — the "
-    "model receives the lineno_offset pydoctor computed and decides in/out of span",
-    "markup errors planted are inline errors (unbalanced brace; unterminated emphasis / inline literal); block-level "
-    "docutils errors (indentation, underline) have their own line conventions and are not generated",
+    "main grid: generated literals are one token without backslash-newline / escapes (physical line of value line r = AST lineno + r, "
+    "checked against ast.parse); literals WITH continuation lines, implicit concatenation and \\n escapes are modelled separately "
+    "(Piece, literal_line_divergence) and tied to CPython and to a real run by the streams literal-source and continuation-e2e",
+    "parser contracts (Lineno.errorStoredLinenum / fieldStoredLineno / constructOffset): epytext Token.startline = 0-based line of the "
+    "block; docutils line = 1-based line of the block; inline nodes carry no line. Not proved; observed directly at the parsers "
+    "(stream parser-contract: Field.lineno and ParseError._linenum of every generated epytext / reST docstring) and end to end (reports)",
+    "reStructuredText cross-reference warnings name the line of the reference itself (get_lineno adds the newlines before its first "
+    "occurrence in the paragraph's rawsource: rst_xref_offset_raw); the oracle accepts that line or the paragraph's first line",
+    "google / numpy: napoleon is modelled for the generated shape only - leading paragraphs are copied line for line, a trailing "
+    "Args: / Parameters section is rewritten as entryInLine / paramOutLine / typeOutLine say (stream napoleon-map against the real "
+    "converter; converted-reports end to end). Other sections (Returns, Raises, Attributes, ...) are not modelled; the oracle only "
+    "requires the docstring's span for these formats (property wording)",
+    "status 2 'could not be parsed' is read as: pydoctor printed a `bad docstring:` message (markup errors and type expressions that "
+    "do not parse alike)",
+    "markup errors planted are inline errors (unbalanced brace; unterminated emphasis / inline literal); block-level docutils errors "
+    "and epytext non-fatal tokenizer warnings have their own line conventions and are not generated",
 ]
 EXPLANATION = ("Theorems relate extract_docstring_linenum and inspect.cleandoc (transcribed) for every string value, and the "
                "offset arithmetic of reportErrors / Field.report / get_lineno / Documentable.report / System.msg / main for "
@@ -100,6 +136,12 @@ def classify(descr: str) -> Tuple[str, str]:
     if descr.startswith("bad docstring: "):
         return "E", ""
     return "O", descr.split(":")[0][:30]
+
+
+def compare(ctx: Ctx, stream: str, reqs, impls, payload=None) -> None:
+    """ctx.compare + the number of cases of every stream into the distribution"""
+    ctx.count("stream:" + stream, len(reqs))
+    ctx.compare(stream, reqs, impls, payload)
 
 
 # --------------------------------------------------------------------------- generator
@@ -204,7 +246,7 @@ def gen_blocks(rng, fmt: str, owner: str, names: Names, raw: bool, opening: bool
             # `(zqN`: warning "unbalanced parenthesis in type expression" + an unresolvable name, both on the field's line
             nm = names.new()
             blocks.append({"lines": [f"{at}type a{colon} ({nm}"], "constructs": [("W", 0, ""), ("X", 0, nm)], "kind": "field"})
-        if fmt == "r" and rng.random() < 0.4:
+        if fmt == "r" and not names.ptypes and rng.random() < 0.4:     # (--process-types would also link plain classifiers)
             blocks.append(consolidated_block(rng, owner, names, raw, density))
     elif can_param and rng.random() < 0.8:
         # google / numpy parameter section with parameters that do not exist
@@ -216,7 +258,8 @@ def gen_blocks(rng, fmt: str, owner: str, names: Names, raw: bool, opening: bool
             lines = ["Parameters", "----------"]
             for p in ps:
                 lines += ["%s%s" % (p, " : int" if typed else ""), "    " + sentence(rng, raw)]
-        blocks.append({"lines": lines, "constructs": [("P", 0, p) for p in ps], "kind": "section"})
+        blocks.append({"lines": lines, "constructs": [("P", 0, p) for p in ps], "kind": "section",
+                       "entries": [(typed, 1 if fmt == "n" else 0) for _ in ps]})
     return blocks
 
 
@@ -658,6 +701,7 @@ def run(ctx: Ctx) -> None:
     rg_req, rg_impl, rg_pay = [], [], []
     sys_req, sys_impl, sys_pay = [], [], []
     pc_req, pc_impl, pc_pay = [], [], []
+    gn_req, gn_impl, gn_pay = [], [], []
     by_mod: Dict[int, List[Tuple[int, bool, Dict[str, Any]]]] = {}
     for (mi, off, wae), res in zip(meta, results):
         mod = mods[mi]
@@ -735,6 +779,16 @@ def run(ctx: Ctx) -> None:
                     pc_impl.append(parser_numbers(fmt, o["doc"], doc))
                     pc_pay.append({"docformat": FMTS[fmt], "cleaned_docstring": o["doc"], "planted": exp})
             else:
+                # stream: google / numpy end to end (paragraphs copied by napoleon + the parameter section's closed form)
+                sec = [(b, st) for b, st in zip(doc["blocks"], doc["starts"]) if b["kind"] == "section"]
+                if all("entries" in b for b, _ in sec):
+                    ptoks = " ".join("%s:%d:%d" % (c[0], st + (c[3] if len(c) > 3 else 0), c[1])
+                                     for b, st in zip(doc["blocks"], doc["starts"]) if b["kind"] != "section" for c in b["constructs"])
+                    gn_req.append("lineno docgn %s %d %d %d %s %s %s %s" % (
+                        fmt, o["ismod"], o["ln"], sl, enc(doc["value"]), sec[0][1] if sec else "-",
+                        ",".join(("t" if t else "u") + str(x) for t, x in sec[0][0]["entries"]) if sec else "-", ptoks))
+                    gn_impl.append(" ".join(sorted({"%s:%s" % (e["line"], e["kind"]) for e in mine})))
+                    gn_pay.append({**inp, "object": doc["name"], "planted": exp})
                 for e in mine:
                     rg_req.append("lineno inrange %d %s %d %d %s %d" % (sl, enc(doc["value"]), o["ismod"], o["ln"], sec_letter(e["rsec"]), e["off"]))
                     inside = e["line"].isdigit() and span[0] <= int(e["line"]) <= span[1]
@@ -776,12 +830,13 @@ def run(ctx: Ctx) -> None:
     stream_inherited(ctx, inh_pk, inh_jobs, inh_results)
     stream_reexported(ctx, rex_pk, rex_jobs, rex_results)
     stream_special(ctx, sp_am, sp_cm, sp_results)
-    ctx.compare("literal", lit_req, lit_impl, lit_pay)
-    ctx.compare("reports", doc_req, doc_impl, doc_pay)
-    ctx.compare("report-arith", ar_req, ar_impl, ar_pay)
-    ctx.compare("converted-range", rg_req, rg_impl, rg_pay)
-    ctx.compare("msg-main", sys_req, sys_impl, sys_pay)
-    ctx.compare("parser-contract", pc_req, pc_impl, pc_pay)
+    compare(ctx, "literal", lit_req, lit_impl, lit_pay)
+    compare(ctx, "reports", doc_req, doc_impl, doc_pay)
+    compare(ctx, "report-arith", ar_req, ar_impl, ar_pay)
+    compare(ctx, "converted-range", rg_req, rg_impl, rg_pay)
+    compare(ctx, "msg-main", sys_req, sys_impl, sys_pay)
+    compare(ctx, "parser-contract", pc_req, pc_impl, pc_pay)
+    compare(ctx, "converted-reports", gn_req, gn_impl, gn_pay)
 
 
 def parser_numbers(fmt: str, cleaned: str, doc: Dict[str, Any]) -> str:
@@ -1028,7 +1083,18 @@ FILE_IDS = {"p/base.py": 1, "p/sub.py": 2, "p/__init__.py": 3}
 def inherited_jobs(ctx: Ctx):
     rng = ctx.rng
     n = 160 if ctx.quick else 1600
-    pk = [gen_inherit_package(rng, "er"[i % 2]) for i in range(n)]
+    # corpus first (shape seeded/C16-3 needs: a markup error in an inherited method docstring, other module), fixed generator
+    import random
+    fixed = random.Random("C16-corpus-inherit")
+    corpus = []
+    for fmt in "er":
+        while True:
+            p = gen_inherit_package(fixed, fmt)
+            if any(c[0] == "E" for b in p["docs"][0]["blocks"] for c in b["constructs"]):
+                corpus.append(p)
+                break
+    ctx.count("corpus:inherited-markup-error", len(corpus))
+    pk = corpus + [gen_inherit_package(rng, "er"[i % 2]) for i in range(n)]
     jobs = []
     for p in pk:
         tree = ast.parse(p["files"]["base.py"])
@@ -1111,7 +1177,7 @@ def stream_inherited(ctx: Ctx, pk, jobs, results) -> None:
             if nerr < len({first for c, _, first, _, _ in exp if c == "E"}):
                 ctx.fail("inherited-docstring:planted-problem-not-reported-in-its-file:E",
                          {**inp, "object": doc["name"]}, f"{where}: a planted markup error is not reported in p/base.py")
-    ctx.compare("inherited", reqs, impls, pay)
+    compare(ctx, "inherited", reqs, impls, pay)
 
 
 # --------------------------------------------------------------------------- re-exported (moved) objects
@@ -1165,7 +1231,19 @@ def gen_reexport_package(rng, fmt: str) -> Dict[str, Any]:
 def reexport_jobs(ctx: Ctx):
     rng = ctx.rng
     n = 120 if ctx.quick else 1200
-    pk = [gen_reexport_package(rng, "er"[i % 2]) for i in range(n)]
+    # corpus first (shape seeded/C16-r2-2 needs: problems in an object moved by __all__), fixed generator
+    import random
+    fixed = random.Random("C16-corpus-reexport")
+    corpus = []
+    for fmt in "er":
+        while True:
+            p = gen_reexport_package(fixed, fmt)
+            moved = [d for d in p["docs"] if d["where"] != "stay" and any(b["constructs"] for b in d["blocks"])]
+            if {d["where"].split("-")[0] for d in moved} == {"init", "sib"}:
+                corpus.append(p)
+                break
+    ctx.count("corpus:reexported-with-problems", len(corpus))
+    pk = corpus + [gen_reexport_package(rng, "er"[i % 2]) for i in range(n)]
     jobs = []
     for p in pk:
         check_against_ast(ctx, p["mod"], p["files"]["_impl.py"], 0)
@@ -1221,7 +1299,7 @@ def stream_reexported(ctx: Ctx, pk, jobs, results) -> None:
                              f"{where}: reported as {e['path']}:{e['line']}, not the file that contains it: {e['descr'][:60]}")
             uniq = sorted({(e["line"], e["kind"], e["name"]) for e in mine if e["path"] == "p/_impl.py"})
             oracle_er(ctx, {**inp, "source": p["files"]["_impl.py"]}, fmt, {**doc, "name": doc["newname"]}, expected_reports(doc, 0), uniq, span)
-    ctx.compare("reexported", reqs, impls, pay)
+    compare(ctx, "reexported", reqs, impls, pay)
 
 
 # --------------------------------------------------------------------------- small exhaustive API streams
@@ -1235,7 +1313,7 @@ def stream_tables(ctx: Ctx) -> None:
         reqs.append("lineno isspace %d %d" % (lo, hi))
         sp = [n for n in range(lo, hi) if not (0xD800 <= n <= 0xDFFF) and chr(n).isspace()]
         impls.append(",".join(map(str, sp)) or "-")
-    ctx.compare("isspace-table", reqs, impls)
+    compare(ctx, "isspace-table", reqs, impls)
     # cleandoc / extract_docstring_linenum on hostile literals (tabs, CR, FF, unicode spaces, blank-only)
     from pydoctor import astutils
     alphabet = [" ", " ", "\t", "\n", "\n", "a", "b", "\r", "\x0c", " ", " ", "\\"]
@@ -1254,7 +1332,7 @@ def stream_tables(ctx: Ctx) -> None:
         reqs.append("lineno literal %d %s" % (ln, enc(s)))
         pay.append({"string_lineno": ln, "value": s})
         ctx.count("literal-fuzz")
-    ctx.compare("literal-fuzz", reqs, impls, pay)
+    compare(ctx, "literal-fuzz", reqs, impls, pay)
 
 
 def stream_report_api(ctx: Ctx) -> None:
@@ -1282,7 +1360,7 @@ def stream_report_api(ctx: Ctx) -> None:
                         reqs.append("lineno report %d %d %d %s %d" % (ismod, dl, ln, s, off))
                         impls.append(m.group("line") if m else "no-output")
                         pay.append({"is_module": ismod, "docstring_lineno": dl, "linenumber": ln, "section": sec, "offset": off})
-    ctx.compare("report-api", reqs, impls, pay)
+    compare(ctx, "report-api", reqs, impls, pay)
     ctx.count("report-api", len(reqs))
 
 
@@ -1345,7 +1423,7 @@ def stream_sys_api(ctx: Ctx) -> None:
                         ctx.fail("exit:tail:%d-expected-%d" % (rc, want), pay[-1], f"main returned {rc}, expected {want}")
     finally:
         driver.get_system, driver.make = o_gs, o_make
-    ctx.compare("sys-api", reqs, impls, pay)
+    compare(ctx, "sys-api", reqs, impls, pay)
     ctx.count("sys-api", len(reqs))
 
 
@@ -1477,7 +1555,7 @@ def stream_special(ctx: Ctx, am, cm, results) -> None:
                     sig = "line:attr-field-and-inline-docstring" if case == "field+own" else "line:attr-%s:%+d" % (case, int(rep[nm]["line"]) - where_line)
                     ctx.fail(sig, {**inp, "object": "m.C." + a["name"], "reported": int(rep[nm]["line"]), "expected": where_line, "problem": ["X", nm]},
                              f"{FMTS[m['fmt']]}: '{nm}' written on line {where_line} in {what} of m.C.{a['name']} is reported on line {rep[nm]['line']}")
-    ctx.compare("attr-both", areq, aimp, apay)
+    compare(ctx, "attr-both", areq, aimp, apay)
     creq, cimp, cpay = [], [], []
     for m, res in zip(cm, results[len(am):]):
         inp = {"source": m["source"], "docformat": FMTS[m["fmt"]], "warnings_as_errors": False}
@@ -1504,7 +1582,7 @@ def stream_special(ctx: Ctx, am, cm, results) -> None:
             ctx.case("cont|%s|%s" % (m["fmt"], enc(value)), True, None)
             if div != d["conts"] - d["escs"]:        # theorem literal_line_divergence, observed on the real run
                 ctx.disagree("continuation-e2e", {**inp, "object": d["name"]}, "physical - reported = %d" % (d["conts"] - d["escs"]), "physical - reported = %d" % div)
-    ctx.compare("continuation-e2e", creq, cimp, cpay)
+    compare(ctx, "continuation-e2e", creq, cimp, cpay)
 
 
 # --------------------------------------------------------------------------- round 3: in-process streams
@@ -1571,7 +1649,7 @@ def stream_literal_source(ctx: Ctx) -> None:
         ctx.count("literal-source:" + style)
         if CONT in pieces or ESC in pieces:
             ctx.count("literal-source:with-continuation-or-escape")
-    ctx.compare("literal-source", reqs, impls, pay)
+    compare(ctx, "literal-source", reqs, impls, pay)
 
 
 def stream_get_lineno_api(ctx: Ctx) -> None:
@@ -1609,7 +1687,7 @@ def stream_get_lineno_api(ctx: Ctx) -> None:
         impls.append(out)
         pay.append({"leaf": [leaf_line, leaf_raw], "ancestors": chain})
         ctx.count("get-lineno-api:depth%d" % depth)
-    ctx.compare("get-lineno-api", reqs, impls, pay)
+    compare(ctx, "get-lineno-api", reqs, impls, pay)
 
 
 def stream_napoleon_map(ctx: Ctx) -> None:
@@ -1651,7 +1729,7 @@ def stream_napoleon_map(ctx: Ctx) -> None:
         ctx.count("napoleon-map:" + ("numpy" if numpy else "google"))
         if len(out) > len(lines):
             ctx.count("napoleon-map:converted-longer-than-written")
-    ctx.compare("napoleon-map", reqs, impls, pay)
+    compare(ctx, "napoleon-map", reqs, impls, pay)
 
 
 # --------------------------------------------------------------------------- replay
